@@ -74,6 +74,9 @@ func (i *scriptImpl) Subscribe(ctx context.Context, q client.Query) error {
 	if i.s.Sub == "err" {
 		return errors.New("scripted subscribe failure")
 	}
+	if i.s.Sub == "ctxerr" {
+		return ctxLikeErr(i.k)
+	}
 	i.ctx, i.q = ctx, q
 	return nil
 }
@@ -103,6 +106,9 @@ func (i *scriptImpl) Recv() error {
 	switch i.s.Out {
 	case "error":
 		return errors.New("scripted stream failure")
+	case "ctxerr":
+		// the stream reports a cancellation or deadline of its own (server side, transport): the client's context is alive
+		return ctxLikeErr(i.k)
 	case "eof":
 		return io.EOF
 	}
@@ -118,6 +124,11 @@ func (i *scriptImpl) Recv() error {
 func (i *scriptImpl) Close() error { i.once.Do(func() { close(i.closed) }); return nil }
 func (i *scriptImpl) Poll() error  { return nil }
 
+// ctxLikeErr is a failure that wraps a context error although the client's own context has not been cancelled.
+func ctxLikeErr(k int) error {
+	return fmt.Errorf("scripted failure: %w", []error{context.Canceled, context.DeadlineExceeded}[k%2])
+}
+
 var recTypeSeq int64
 
 // reconnectScripted runs one scenario with the scripted Impl.
@@ -127,12 +138,16 @@ func reconnectScripted(w *trace.Writer, seed int64) bool {
 	e.emit(trace.E{"ev": "reset"})
 	na := 1 + r.Intn(3)
 	for k := 0; k < na; k++ {
-		a := attemptScript{New: "ok", Sub: "ok", Msgs: r.Intn(3), Out: []string{"error", "eof", "error"}[r.Intn(3)]}
-		switch r.Intn(6) {
+		a := attemptScript{New: "ok", Sub: "ok", Msgs: r.Intn(3), Out: []string{"error", "eof", "error", "ctxerr"}[r.Intn(4)]}
+		switch r.Intn(8) {
 		case 0:
 			a.New = "err"
 		case 1:
 			a.Sub = "err"
+		case 2:
+			a.New = "ctxerr"
+		case 3:
+			a.Sub = "ctxerr"
 		}
 		e.script = append(e.script, a)
 	}
@@ -173,6 +188,9 @@ func reconnectScripted(w *trace.Writer, seed int64) bool {
 		}
 		if s.New == "err" {
 			return nil, errors.New("scripted dial failure")
+		}
+		if s.New == "ctxerr" {
+			return nil, ctxLikeErr(k)
 		}
 		return &scriptImpl{e: e, k: k, s: s, closed: make(chan struct{})}, nil
 	})
